@@ -247,6 +247,28 @@ static void gen_number(void)
 		tok_add(strpbrk(e, ".eE") ? TK_DBL : TK_INT, start, TL, strpbrk(e, "eE") ? 1 : 0);
 		return;
 	}
+	if (r == 5)
+	{
+		/* plain decimals around the limits of exact arithmetic: 1..17 significant digits behind 0..29 zeros of a fraction
+		 * of 15..30 digits (10^22 is the last power of ten a double holds exactly, 2^53 the last exact mantissa) */
+		if (vh_below(3) == 0)
+			putc_('-');
+		if (vh_below(3))
+			putc_('0');
+		else
+			putc_('1' + (int)vh_below(9));
+		putc_('.');
+		int nfrac = 15 + (int)vh_below(16), nsig = 1 + (int)vh_below(17);
+		if (nsig > nfrac)
+			nsig = nfrac;
+		for (int i = 0; i < nfrac - nsig; i++)
+			putc_('0');
+		putc_('1' + (int)vh_below(9));
+		for (int i = 1; i < nsig; i++)
+			putc_('0' + (int)vh_below(10));
+		tok_add(TK_DBL, start, TL, 0);
+		return;
+	}
 	int isd = 0, hasexp = 0;
 	if (vh_below(3) == 0)
 		putc_('-');
@@ -1112,6 +1134,20 @@ static int reuse_drive(int start, int nexec)
 				if (o)
 					json_object_put(o);
 			}
+			else if (vh_below(5) == 0)
+			{
+				/* a document with one long token, parsed while one of the call's first allocation requests fails (the
+				 * scratch buffer's growth among them): whatever the failed call left behind, the reset parser is as good
+				 * as new - the next round parses a long-token document again */
+				gen_long_token(0);
+				memcpy(D, T, (size_t)TL);
+				vh_alloc_arm((long)vh_below(3));
+				json_object *o = call_exact(tok, D, (size_t)TL);
+				vh_alloc_disarm();
+				if (o)
+					json_object_put(o);
+				huge = 1;
+			}
 			else if (vh_below(2))
 			{
 				const char *d = dirty[vh_below(sizeof dirty / sizeof *dirty)];
@@ -1313,6 +1349,68 @@ static int valid_drive(int start, int nexec)
 		record_parse("parse", 1, 32, NULL, 0);
 		record_conv();
 	}
+	return 0;
+}
+/* the number lattice: every fraction length 1..40 x every count 1..17 of significant digits (plain decimals), every decimal
+ * exponent -30..30 x 1..17 mantissa digits, integer parts of 14..20 digits with short fractions - one array per row, both
+ * modes.  (Conversions that take short cuts - exact powers of ten end at 10^22, exact mantissas at 2^53 - have their
+ * corners somewhere in this grid.) */
+static void num_digits(int n)
+{
+	putc_('1' + (int)vh_below(9));
+	for (int i = 1; i < n; i++)
+		putc_('0' + (int)vh_below(10));
+}
+static int valid_numbers(int reps)
+{
+	ev_begin("new");
+	ev_end();
+	for (int rep = 0; rep < reps; rep++)
+		for (int row = 0; row < 40 + 61 + 35; row++)
+		{
+			TL = 0;
+			putc_('[');
+			for (int nsig = 1; nsig <= 17; nsig++)
+			{
+				if (nsig > 1)
+					putc_(',');
+				if (vh_below(4) == 0)
+					putc_('-');
+				if (row < 40)
+				{
+					int nfrac = row + 1, ns = nsig > nfrac ? nfrac : nsig;
+					putc_('0');
+					putc_('.');
+					for (int i = 0; i < nfrac - ns; i++)
+						putc_('0');
+					num_digits(ns);
+				}
+				else if (row < 101)
+				{
+					int e = row - 40 - 30;
+					char eb[8];
+					num_digits(1);
+					if (nsig > 1)
+					{
+						putc_('.');
+						num_digits(nsig - 1);
+					}
+					snprintf(eb, sizeof eb, "%c%s%d", vh_below(2) ? 'e' : 'E', e < 0 ? "-" : vh_below(2) ? "+" : "", e < 0 ? -e : e);
+					puts_(eb);
+				}
+				else
+				{
+					int r2 = row - 101, nint = 14 + r2 / 5, nfrac = 1 + r2 % 5;
+					num_digits(nint);
+					putc_('.');
+					for (int i = 0; i < nfrac; i++)
+						putc_('0' + (int)vh_below(10));
+				}
+			}
+			putc_(']');
+			record_parse("parse", 0, 32, NULL, 0);
+			record_parse("parse", 1, 32, NULL, 0);
+		}
 	return 0;
 }
 /* every single \uXXXX code unit in [lo,hi), and surrogate combinations */
@@ -1756,6 +1854,8 @@ int tok_main(int argc, char **argv)
 {
 	if (argc >= 3 && !strcmp(argv[0], "valid-drive"))
 		return valid_drive(atoi(argv[1]), atoi(argv[2]));
+	if (argc >= 2 && !strcmp(argv[0], "valid-numbers"))
+		return valid_numbers(atoi(argv[1]));
 	if (argc >= 4 && !strcmp(argv[0], "valid-escapes"))
 		return valid_escapes(atoi(argv[1]), atoi(argv[2]), atoi(argv[3]));
 	if (argc >= 3 && !strcmp(argv[0], "valid-pairs"))
